@@ -11,11 +11,14 @@
                           Instance.Restart (listeners of the old instance are inherited by address through
                           dup'ed descriptors; only on success the old instance is stopped and spliced out)
      sigtrap_posix.go     SIGUSR1: clone hooks, purge, Restart(instances[0]), restore on error
+                          (every failing start / validation also restores the registry it found on entry)
      plugins.go           RegisterEventHook / cloneEventHooks / purgeEventHooks / restoreEventHooks
      onevent/on.go        `on`: registers its hooks in the global registry while the directive is set up
      basicauth/basicauth.go GetHtpasswdMatcher: package-level cache keyed by file name, guarded by a
-                          package-level mutex (released on every path since the fix ee9fbaa); the parsed
-                          file is cached BEFORE the user is looked up and is never invalidated
+                          package-level mutex (released on every path since the fix ee9fbaa); the file is
+                          opened and stat'ed on every call and the cached parse is used only while the file
+                          has the modification time and size it was read with (the model identifies a
+                          version of a file with its contents: a changed file has a changed stamp)
      httpserver/roller.go + logger.go  the `log` startup callback opens the file and takes the roller of that
                           file from a package-level map; the first settings registered for a file stick.
 
@@ -76,7 +79,7 @@ Record inst := {
 Record gstate := {
   g_insts : list inst;                    (* casket.instances *)
   g_hooks : list N;                       (* eventHooks: birth step of every registered hook *)
-  g_htcache : list (N * list (N * N));    (* basicauth.htpasswords *)
+  g_htcache : list (N * htfile);          (* basicauth.htpasswords: the version of the file that was parsed *)
   g_htlock : bool;                        (* basicauth.htpasswordsMu is held *)
   g_rollers : list (N * N);               (* httpserver.lumberjacks: file -> rotate size *)
   g_socks : list sock;                    (* listening sockets of the process with their descriptors *)
@@ -93,7 +96,7 @@ Definition set_insts (g : gstate) (x : list inst) : gstate :=
 Definition set_hooks (g : gstate) (x : list N) : gstate :=
   {| g_insts := g_insts g; g_hooks := x; g_htcache := g_htcache g; g_htlock := g_htlock g;
      g_rollers := g_rollers g; g_socks := g_socks g; g_next := g_next g |}.
-Definition set_htcache (g : gstate) (x : list (N * list (N * N))) : gstate :=
+Definition set_htcache (g : gstate) (x : list (N * htfile)) : gstate :=
   {| g_insts := g_insts g; g_hooks := g_hooks g; g_htcache := x; g_htlock := g_htlock g;
      g_rollers := g_rollers g; g_socks := g_socks g; g_next := g_next g |}.
 Definition set_htlock (g : gstate) (x : bool) : gstate :=
@@ -111,28 +114,34 @@ Definition is_ok (r : outcome) : bool := match r with ROk => true | _ => false e
 
 (* ---------------------------------------------------------------- basicauth.GetHtpasswdMatcher *)
 (* [unlock_on_error = false] is the code before the fix ee9fbaa (kept to document the defect) *)
+Definition users_eqb (a b : list (N * N)) : bool :=
+  list_beq (fun x y => (fst x =? fst y) && (snd x =? snd y)) a b.
+(* same modification time and size: the same version of the file *)
+Definition htfile_eqb (a b : htfile) : bool :=
+  Bool.eqb (h_present a) (h_present b) && users_eqb (h_users a) (h_users b) && Bool.eqb (h_bad a) (h_bad b).
+
 Definition get_matcher_gen (unlock_on_error : bool) (e : env) (g : gstate) (f u : N)
   : outcome * gstate * option N :=
   if g_htlock g then (RHang, g, None)                         (* Lock() never returns *)
   else
     let fail (g' : gstate) := (RErr, set_htlock g' (negb unlock_on_error), None) in
-    match assoc f (g_htcache g) with
-    | Some users =>
+    let h := env_get e f in
+    if negb (h_present h) then fail g                          (* open fails, whatever is cached *)
+    else
+      let look (g' : gstate) (users : list (N * N)) :=
         match assoc u users with
-        | Some pw => (ROk, g, Some pw)
-        | None => (RErr, g, None)                              (* "username not found" (unlocks) *)
-        end
-    | None =>
-        let h := env_get e f in
-        if negb (h_present h) then fail g                      (* open fails *)
-        else if h_bad h then fail g                            (* parse fails: nothing is cached *)
-        else
-          let g' := set_htcache g ((f, h_users h) :: g_htcache g) in
-          match assoc u (h_users h) with
-          | Some pw => (ROk, g', Some pw)
-          | None => (RErr, g', None)                           (* cached although the lookup fails *)
-          end
-    end.
+        | Some pw => (ROk, g', Some pw)
+        | None => (RErr, g', None)                             (* "username not found" (unlocks) *)
+        end in
+      match assoc f (g_htcache g) with
+      | Some h' =>
+          if htfile_eqb h' h then look g (h_users h')          (* unchanged since it was read *)
+          else if h_bad h then fail g                          (* re-read; parse fails: the old entry stays *)
+          else look (set_htcache g ((f, h) :: g_htcache g)) (h_users h)
+      | None =>
+          if h_bad h then fail g                               (* parse fails: nothing is cached *)
+          else look (set_htcache g ((f, h) :: g_htcache g)) (h_users h)
+      end.
 Definition get_matcher := get_matcher_gen true.
 
 (* ---------------------------------------------------------------- executeDirectives *)
@@ -183,6 +192,15 @@ Definition dup_fd (g : gstate) (sid : N) : gstate :=
 Definition new_sock (g : gstate) (a : addr) : gstate :=
   set_socks g (g_socks g ++ [{| s_id := g_next g; s_addr := a; s_fds := 1 |}]) (g_next g + 1).
 
+(* closing one descriptor of a socket; a socket without descriptors is gone *)
+Definition close_fd (socks : list sock) (sid : N) : list sock :=
+  filter (fun s => negb (Nat.eqb (s_fds s) 0))
+    (map (fun s => if s_id s =? sid then {| s_id := s_id s; s_addr := s_addr s; s_fds := pred (s_fds s) |} else s) socks).
+
+(* the deferred clean-up of startServers: what this call opened is closed again, newest first *)
+Definition close_opened (g : gstate) (acc : list (addr * N)) : gstate :=
+  set_socks g (fold_right (fun p socks => close_fd socks (snd p)) (g_socks g) acc) (g_next g).
+
 Fixpoint start_servers (old : list (addr * N)) (addrs : list addr) (g : gstate) (acc : list (addr * N))
   : outcome * gstate * list (addr * N) :=
   match addrs with
@@ -192,7 +210,7 @@ Fixpoint start_servers (old : list (addr * N)) (addrs : list addr) (g : gstate) 
       | Some sid => start_servers old r (dup_fd g sid) (acc ++ [(a, sid)])
       | None =>
           match a with
-          | ABusy => (RErr, g, acc)       (* Listen fails; what was opened so far stays open *)
+          | ABusy => (RErr, close_opened g acc, [])   (* Listen fails; what was opened so far is closed *)
           | AEph _ => start_servers old r (new_sock g a) (acc ++ [(a, g_next g)])
           end
       end
@@ -201,7 +219,7 @@ Fixpoint start_servers (old : list (addr * N)) (addrs : list addr) (g : gstate) 
 (* ---------------------------------------------------------------- startWithListenerFds *)
 Definition parse_ok (c : cfg) : bool := match c_parse c with PNone => true | _ => false end.
 
-Definition start_with (step : N) (e : env) (c : cfg) (old : list (addr * N)) (g : gstate)
+Definition start_body (step : N) (e : env) (c : cfg) (old : list (addr * N)) (g : gstate)
   : outcome * gstate * option inst :=
   if negb (parse_ok c) then (RErr, g, None)
   else
@@ -214,17 +232,25 @@ Definition start_with (step : N) (e : env) (c : cfg) (old : list (addr * N)) (g 
             let '(r3, g3, srv) := start_servers old (c_addrs c) g2 [] in
             match r3 with
             | ROk => (ROk, g3, Some {| i_cfg := c_id c; i_servers := srv; i_auth := l_auth l; i_log := l_log l |})
-            | x => (x, g3, None)
+            | x => (x, set_socks g3 (g_socks g3) (g_next g2), None)  (* the identities of the closed sockets are free again *)
             end
         | x => (x, g2, None)
         end
     | x => (x, g1, None)
     end.
 
-(* Instance.Stop: every server closes its descriptor; a socket without descriptors is gone *)
-Definition close_fd (socks : list sock) (sid : N) : list sock :=
-  filter (fun s => negb (Nat.eqb (s_fds s) 0))
-    (map (fun s => if s_id s =? sid then {| s_id := s_id s; s_addr := s_addr s; s_fds := pred (s_fds s) |} else s) socks).
+(* the deferred clean-up of startWithListenerFds: on every error the event-hook registry is put back as it
+   was on entry (cloneEventHooks / restoreEventHooks), whatever the directives of the rejected
+   configuration registered; the instance is spliced out of the list (collapsed, see above) *)
+Definition start_with (step : N) (e : env) (c : cfg) (old : list (addr * N)) (g : gstate)
+  : outcome * gstate * option inst :=
+  let '(r, g', oi) := start_body step e c old g in
+  match r with
+  | ROk => (r, g', oi)
+  | x => (x, set_hooks g' (g_hooks g), oi)
+  end.
+
+(* Instance.Stop: every server closes its descriptor *)
 Definition stop_inst (g : gstate) (i : inst) : gstate :=
   set_socks g (fold_left close_fd (map snd (i_servers i)) (g_socks g)) (g_next g).
 
@@ -235,9 +261,15 @@ Definition do_load (step : N) (e : env) (c : cfg) (g : gstate) : outcome * gstat
   | (x, g', _) => (x, g')
   end.
 
+(* ValidateAndExecuteDirectives: when a directive fails the hook registry is put back as it was before the
+   directives were executed *)
 Definition do_validate (step : N) (e : env) (c : cfg) (g : gstate) : outcome * gstate :=
   if negb (parse_ok c) then (RErr, g)
-  else let '(r, g', _) := exec_effs step e (c_effs c) g l0 in (r, g').
+  else let '(r, g', _) := exec_effs step e (c_effs c) g l0 in
+       match r with
+       | ROk => (r, g')
+       | x => (x, set_hooks g' (g_hooks g))
+       end.
 
 (* Instance.Restart on instances[0] *)
 Definition do_reload (step : N) (e : env) (c : cfg) (g : gstate) : outcome * gstate :=
@@ -463,23 +495,34 @@ Definition no_log (effs : list effect) : bool :=
 Definition socks_le (a b : list sock) : Prop :=
   forall s, In s a -> exists s', In s' b /\ s_id s' = s_id s /\ s_addr s' = s_addr s /\ (s_fds s <= s_fds s')%nat.
 
-(* the failing Listen comes first, or no Listen can fail *)
-Definition listen_safe (addrs : list addr) : bool :=
-  match addrs with
-  | ABusy :: _ => true
-  | l => negb (existsb is_busy l)
-  end.
-
 (* nobody ever serves on the address that is held by somebody else *)
 Definition srv_wf (srv : list (addr * N)) : Prop := forall a sid, In (a, sid) srv -> a <> ABusy.
-Definition wf (g : gstate) : Prop := forall i, In i (g_insts g) -> srv_wf (i_servers i).
+(* every socket of the table has a descriptor and an identity handed out earlier *)
+Definition socks_ok (g : gstate) : Prop :=
+  forall s, In s (g_socks g) -> (1 <= s_fds s)%nat /\ s_id s < g_next g.
+(* what is cached was read from a file that was there and could be parsed *)
+Definition cache_ok (g : gstate) : Prop :=
+  forall f h, assoc f (g_htcache g) = Some h -> h_present h = true /\ h_bad h = false.
+Definition wf (g : gstate) : Prop :=
+  (forall i, In i (g_insts g) -> srv_wf (i_servers i)) /\ socks_ok g /\ cache_ok g.
 
-(* the faithful model leaves something behind exactly through: hooks of `on` (not on the SIGUSR1 path),
-   the htpasswd cache, the rollers of startup callbacks that ran, listeners opened before a failing one *)
+(* two states that differ at most in what the htpasswd cache holds *)
+Definition same_but_cache (g g' : gstate) : Prop :=
+  g_insts g' = g_insts g /\ g_hooks g' = g_hooks g /\ g_htlock g' = g_htlock g /\
+  g_rollers g' = g_rollers g /\ g_socks g' = g_socks g /\ g_next g' = g_next g.
+
+(* GetHtpasswdMatcher without a cache: what the file holds now *)
+Definition lookup_now (e : env) (f u : N) : outcome * option N :=
+  let h := env_get e f in
+  if negb (h_present h) then (RErr, None)
+  else if h_bad h then (RErr, None)
+  else match assoc u (h_users h) with Some pw => (ROk, Some pw) | None => (RErr, None) end.
+
+(* the faithful model leaves something behind that matters exactly through the rollers of startup callbacks
+   that ran (the htpasswd cache may change, but it is transparent: it is consulted only for the version of
+   the file that is on disk now) *)
 Definition harmless0 (m : mode) (c : cfg) : bool :=
-  (match m with Sigusr1 => true | _ => no_on (c_effs c) end)
-  && no_auth (c_effs c)
-  && (match m with Validate | Execute => true | _ => no_log (c_effs c) && listen_safe (c_addrs c) end).
+  match m with Validate | Execute => true | _ => no_log (c_effs c) end.
 
 (* only what an attempt reaches matters: nothing of a configuration that does not parse; of one with a
    bad directive the directives before it, without the startup callbacks they merely schedule *)
@@ -521,10 +564,6 @@ Definition alive (g : gstate) (i : inst) : Prop :=
 
 Definition roller_of (g : gstate) (i : inst) : option N :=
   match i_log i with Some f => assoc f (g_rollers g) | None => None end.
-
-Definition cache_fresh (e : env) (g : gstate) (effs : list effect) : Prop :=
-  forall f u, In (EAuth f u) effs ->
-  assoc f (g_htcache g) = None \/ assoc f (g_htcache g) = Some (h_users (env_get e f)).
 
 (* the basic-auth matcher a valid configuration gets in a fresh process: user of its (last) htpasswd line
    and the password the file holds for it NOW *)
